@@ -1248,6 +1248,9 @@ impl<'a> GeneratorState<'a> {
         if load || matches!(expr, ExprType::X | ExprType::Y) {
             // The load modifies the N and Z flags, and so does a transfer to X or Y
             self.flags = FlagsState::Unknown;
+        } else if !matches!(self.flags, FlagsState::A | FlagsState::X | FlagsState::Y) {
+            // A store to memory: the flags may have described the previous content of that cell
+            self.flags = FlagsState::Unknown;
         }
         Ok(())
     }
